@@ -39,6 +39,8 @@ type ackedWrite struct {
 	Off, Len int64
 	Sum      uint64
 	W        []int // nodes attached (non-ERR) when it was issued
+	A        []int // nodes that applied it
+	ARW      int   // how many of those were RW (not rebuilding) at the time
 }
 
 // SExec runs stack programs against the real controller and nodes and a
@@ -421,6 +423,7 @@ func (x *SExec) doWrite(i int, op SOp) *Fail {
 	}
 	W := x.writers()
 	ro := x.readOnly()
+	modeBefore := append([]types.Mode{}, x.Mode...)
 	before := make([]int, len(st.Nodes))
 	for j, n := range st.Nodes {
 		before[j] = n.LogLen(op.K)
@@ -534,7 +537,13 @@ func (x *SExec) doWrite(i int, op SOp) *Fail {
 	if op.K == "write" {
 		if ack {
 			x.Live.Write(off, data)
-			x.Acked = append(x.Acked, ackedWrite{Off: off, Len: length, Sum: sum64(data), W: W})
+			arw := 0
+			for j := range applied {
+				if modeBefore[j] == types.RW {
+					arw++
+				}
+			}
+			x.Acked = append(x.Acked, ackedWrite{Off: off, Len: length, Sum: sum64(data), W: W, A: keys(applied), ARW: arw})
 			x.Labels["write:acked"]++
 		} else if len(applied) > 0 {
 			for s := off / Sec; s < (off+length)/Sec; s++ {
